@@ -95,6 +95,11 @@ pub(crate) fn std_spec_le_bytes(s: &mut impl Src) {
     let y = (x & 0xFFFF) as u16;
     let c = u16::to_le_bytes(y);
     assert!(c[0] as u16 + 256 * (c[1] as u16) == y && u16::from_le_bytes(c) == y);
+    // the signed variants as stated in vx/prelude/std_shims.rs (rule N18)
+    let v = c[0] as i64 + 256 * (c[1] as i64);
+    assert!(i16::from_le_bytes(c) as i64 == if c[1] < 128 { v } else { v - 65536 });
+    let w = b[0] as i64 + 256 * (b[1] as i64) + 65536 * (b[2] as i64) + 16777216 * (b[3] as i64);
+    assert!(i32::from_le_bytes(b) as i64 == if b[3] < 128 { w } else { w - 0x1_0000_0000 });
 }
 // S2: i32::saturating_mul as specified in the Verus prelude (i32_sat_mul), for the multipliers the crate uses (3 and 10)
 pub(crate) fn std_spec_i32_saturating_mul(s: &mut impl Src) {
